@@ -38,14 +38,23 @@ FLAVOURS_9 = [
     "a rule applied at the wrong level: once for the whole string instead of per item / per label / per segment (or the reverse), the first occurrence instead of the last, all instead of the outermost",
     "round-tripping and idempotence: a value escaped twice or unescaped twice, a second application that changes the result, encode / decode pairs that disagree on one reserved character",
 ]
+FLAVOURS_10 = [
+    "an assumption about the shape of real-world data that holds for the examples at hand only: hosts always have two labels, ids are always digits, queries never repeat a key, paths never contain '%', '@' or ':' ...",
+    "a comparison or lookup done on a differently-prepared value than the one stored or emitted: stripped vs raw, lower-cased vs original, decoded vs encoded, with vs without trailing dot / slash / port",
+    "a second code path for the same job that drifted: a fast path vs the general path, a str path vs a bytes path, a method vs the function it wraps, a public alias vs the implementation",
+    "an early exit or guard clause placed one step too early or too late in a pipeline, so that one cleaning / validation step is skipped for a rare class of inputs",
+    "a plausible simplification of a regular expression or of a chain of string operations (merging alternatives, dropping a look-around, replacing a loop by one call) that is almost equivalent",
+]
 if int(R) == 6:
     FLAVOURS = FLAVOURS_6
 if int(R) == 7:
     FLAVOURS = FLAVOURS_7
 if int(R) == 8:
     FLAVOURS = FLAVOURS_8
-if int(R) >= 9:
+if int(R) == 9:
     FLAVOURS = FLAVOURS_9
+if int(R) >= 10:
+    FLAVOURS = FLAVOURS_10
 TEMPLATE = open(os.path.join(os.path.dirname(os.path.abspath(__file__)), "seed_prompt_template.txt")).read()
 props = [json.loads(l) for l in open("/verif/properties.jsonl")]
 for i, p in enumerate(props):
